@@ -29,12 +29,24 @@ def site(fi: FuncInfo, node: ast.AST, label: str, same=None) -> str:
             same = lambda n: isinstance(n, ty)   # noqa: E731
     key = (id(fi.node), label)
     tab = _ORD_CACHE.get(key)
-    if tab is None or (node.lineno, node.col_offset) not in tab:
+    if tab is None or (id(node) not in tab[0] and (node.lineno, node.col_offset) not in tab[1]):
+        order = {}
+
+        def dfs(n):
+            for c in ast.iter_child_nodes(n):
+                order[id(c)] = len(order)
+                if not isinstance(c, (ast.FunctionDef, ast.AsyncFunctionDef, ast.Lambda, ast.ClassDef)):
+                    dfs(c)
+        dfs(fi.node)
         nodes = [n for n in walk_no_nested(fi.node) if same(n)]
-        nodes.sort(key=lambda n: (n.lineno, n.col_offset))
-        tab = {(n.lineno, n.col_offset): i for i, n in enumerate(nodes)}
+        # source order; code inlined from a helper keeps the helper's line numbers, so copies are told apart by their place in the tree
+        nodes.sort(key=lambda n: (n.lineno, n.col_offset, order.get(id(n), 0)))
+        by_pos = {}
+        for i, n in enumerate(nodes):
+            by_pos.setdefault((n.lineno, n.col_offset), i)
+        tab = ({id(n): i for i, n in enumerate(nodes)}, by_pos)
         _ORD_CACHE[key] = tab
-    k = tab.get((node.lineno, node.col_offset), 0)
+    k = tab[0].get(id(node), tab[1].get((node.lineno, node.col_offset), 0))
     return f'{fi.key}::{label}#{k}'
 
 
@@ -60,3 +72,80 @@ def sum_lin(lists, g: Dict[str, int], dl: Dict[str, int]) -> lin.Lin:
 
 def status_str(status) -> str:
     return status if isinstance(status, str) else f'raise {status[1]}'
+
+
+# ------------------------------------------------------------------------------------------------ guard evaluation
+class NotEvaluable(Exception):
+    pass
+
+
+def eval_guard(test: ast.AST, binding) -> bool:
+    """Truth of a validation guard for one representative value: `binding(expr_text)` gives the value of the names / attribute chains it
+    knows (raise KeyError otherwise).  Only isinstance, comparisons with literals, not / and / or are interpreted - enough to decide
+    whether a guard rejects a class of values, whatever way it is spelled."""
+    def val(n):
+        if isinstance(n, ast.Constant):
+            return n.value
+        t = ast.unparse(n)
+        try:
+            return binding(t)
+        except KeyError:
+            pass
+        if isinstance(n, ast.Tuple):
+            return tuple(val(e) for e in n.elts)
+        if isinstance(n, ast.Name) and n.id in ('int', 'float', 'str', 'bool', 'list', 'tuple'):
+            return {'int': int, 'float': float, 'str': str, 'bool': bool, 'list': list, 'tuple': tuple}[n.id]
+        if isinstance(n, ast.UnaryOp) and isinstance(n.op, ast.USub):
+            return -val(n.operand)
+        raise NotEvaluable(t)
+
+    def ev(n):
+        if isinstance(n, ast.BoolOp):
+            if isinstance(n.op, ast.And):
+                for v in n.values:
+                    if not ev(v):
+                        return False
+                return True
+            for v in n.values:
+                if ev(v):
+                    return True
+            return False
+        if isinstance(n, ast.UnaryOp) and isinstance(n.op, ast.Not):
+            return not ev(n.operand)
+        if isinstance(n, ast.Call) and isinstance(n.func, ast.Name) and n.func.id == 'isinstance' and len(n.args) == 2:
+            return isinstance(val(n.args[0]), val(n.args[1]))
+        if isinstance(n, ast.Compare):
+            left = val(n.left)
+            for op, c in zip(n.ops, n.comparators):
+                right = val(c)
+                try:
+                    ok = {ast.Lt: lambda a, b: a < b, ast.LtE: lambda a, b: a <= b, ast.Gt: lambda a, b: a > b, ast.GtE: lambda a, b: a >= b,
+                          ast.Eq: lambda a, b: a == b, ast.NotEq: lambda a, b: a != b, ast.Is: lambda a, b: a is b, ast.IsNot: lambda a, b: a is not b,
+                          ast.In: lambda a, b: a in b, ast.NotIn: lambda a, b: a not in b}[type(op)](left, right)
+                except TypeError:
+                    raise NotEvaluable('comparison of incomparable values')
+                if not ok:
+                    return False
+                left = right
+            return True
+        return bool(val(n))
+    return ev(test)
+
+
+def guard_rejects(test: ast.AST, names, bad, good) -> bool:
+    """the guard is true for every value in `bad` and false for every value in `good` (values bound to each spelling in `names`)"""
+    try:
+        for v in bad:
+            try:
+                if not eval_guard(test, lambda t, v=v: v if t in names else (_ for _ in ()).throw(KeyError(t))):
+                    return False
+            except NotEvaluable as e:
+                if 'incomparable' in str(e):
+                    continue            # the guard itself raises TypeError for this value: rejected as well
+                raise
+        for v in good:
+            if eval_guard(test, lambda t, v=v: v if t in names else (_ for _ in ()).throw(KeyError(t))):
+                return False
+        return True
+    except NotEvaluable:
+        return False
